@@ -15,8 +15,9 @@ CONSTANTS MaxP, MaxQ, MaxK,   \* box: p in 0..MaxP, q in 0..MaxQ, k in 0..MaxK
           Margin,             \* generators and elements range over -Margin .. p+Margin
           Variants,           \* set of variants [fam, F, G, E, le, canon, n]
           NaiveMaxP,          \* blocks with p <= NaiveMaxP are also computed by filtering the whole block
-          Mode,               \* "acc": blocks only;  "nbr": + neighbourhoods;  "needs": oracle strings only
-          CheckArith          \* evaluate the arithmetic agreement theorem at start-up (once per run is enough)
+          Mode,               \* "acc": blocks only;  "nbr": + neighbourhoods;  "needs": oracle strings only;  "elem": member sets
+          CheckArith,         \* evaluate the arithmetic agreement theorem at start-up (once per run is enough)
+          SortedBases         \* TRUE: of the well-formed sets that differ only in the order of their generators, one is picked
 
 VARIABLES stage, v, ps, fld
 vars == <<stage, v, ps, fld>>
@@ -68,6 +69,9 @@ FieldRange(w, t, f) ==
   ELSE GRange(t[1])
 NbrAcc(w, t, f) == {x \in FieldRange(w, t, f) : WFv(w, [t EXCEPT ![f] = x])}
 
+\* classes with a CheckElement(): all test a^q = 1 (mod p), 0 < a < p; the QR class tests the Jacobi symbol
+ElemClasses == {"dlog", "eotp", "vrhe", "pubrotzk", "pvss", "gjkr_dkg", "cg_rvss", "cg_zvss", "cg_dkg", "cg_dss", "jl_rvss"}
+
 \* oracle strings still missing for the canonical generators of this block
 NeedsOf(w, p) ==
   IF ~(w.fam \in {"dlog", "pqgh"} /\ w.canon) THEN {}
@@ -76,8 +80,11 @@ NeedsOf(w, p) ==
 ---------------------------------------------------------------------------
 Init == /\ stage = "block" /\ v \in Variants /\ ps \in {<<p>> : p \in 0..MaxP} /\ fld = 0
 
+\* WFv of "com" (and of "pqgh" without the verifiable generator) is symmetric in the generators
+Increasing(s) == \A i \in 1..(Len(s) - 1) : s[i] < s[i + 1]
+Representative(w, t) == (SortedBases /\ (w.fam = "com" \/ (w.fam = "pqgh" /\ ~w.canon))) => Increasing(GensOf(w, t))
 PickValid == /\ stage = "block" /\ Mode = "nbr"
-             /\ ps' \in AccBlock(v, ps[1])
+             /\ ps' \in {t \in AccBlock(v, ps[1]) : Representative(v, t)}
              /\ stage' = "valid" /\ UNCHANGED <<v, fld>>
 Corrupt == /\ stage = "valid"
            /\ \E f \in 1..NFields(v) : \E x \in FieldRange(v, ps, f) \ {ps[f]} :
@@ -89,7 +96,7 @@ Spec == Init /\ [][Next]_vars
 ---------------------------------------------------------------------------
 (* theorems evaluated in every state                                        *)
 \* the block-wise construction is the definition
-BlockIsDefinition == (stage = "block" /\ Mode # "needs" /\ ps[1] <= NaiveMaxP) => AccBlock(v, ps[1]) = NaiveBlock(v, ps[1])
+BlockIsDefinition == (stage = "block" /\ Mode \in {"acc", "nbr"} /\ ps[1] <= NaiveMaxP) => AccBlock(v, ps[1]) = NaiveBlock(v, ps[1])
 \* acceptance means what it should
 Sound == (stage # "block" /\ WFv(v, ps)) => MathOK(v, ps)
 \* WFv is exactly the complement of the property's defect list
@@ -111,6 +118,13 @@ Emit ==
                        acc |-> AccBlock(v, ps[1])]))
   /\ (stage = "block" /\ Mode = "needs") =>
         \A c \in NeedsOf(v, ps[1]) : PrintT(ToJson([kind |-> "need", u |-> c.u, m |-> c.m, st |-> c.st]))
+  /\ (stage = "block" /\ Mode = "elem" /\ ps[1] >= 1) =>
+        /\ \A q \in 0..MaxQ :
+              PrintT(ToJson([kind |-> "elem", classes |-> ElemClasses, p |-> ps[1], q |-> q, lo |-> 0 - Margin, hi |-> ps[1] + Margin,
+                             mem |-> {a \in GRange(ps[1]) : Member(ps[1], q, a)}]))
+        /\ \A q \in {y \in 1..MaxQ : ps[1] = 2 * y + 1 /\ IsPrime(y) /\ IsPrime(ps[1]) /\ ps[1] % 8 = 7} :
+              PrintT(ToJson([kind |-> "elem", classes |-> {"qr"}, p |-> ps[1], q |-> q, lo |-> 0 - Margin, hi |-> ps[1] + Margin,
+                             mem |-> {a \in GRange(ps[1]) : MemberQR(ps[1], a)}]))
   /\ (stage = "valid") =>
         PrintT(ToJson([kind |-> "nbr", v |-> v, classes |-> ClassesOf(v), base |-> ps,
                        vals |-> [f \in 1..NFields(v) |-> FieldRange(v, ps, f)],
@@ -124,7 +138,7 @@ ArithOK ==
   /\ Bits(0) = 0
   /\ \A m \in 1..24, a \in (0 - 3)..26, e \in 0..13 : PowM(a, e, m) = PowDef(a, e, m)
   /\ \A a \in 0..40, b \in 0..40 : Gcd(a, b) = GcdDef(a, b)
-  /\ \A n \in 0..300 : Isqrt(n) * Isqrt(n) <= n /\ (Isqrt(n) + 1) * (Isqrt(n) + 1) > n
+  /\ \A n \in 46000..46340 : IsPrime(n) = IsPrimeDef(n)
   /\ B62(0) = "0" /\ B62(23) = "N" /\ B62(61) = "z" /\ B62(62) = "10" /\ B62(2063) = "XH"
 ASSUME CheckArith => ArithOK
 =============================================================================
